@@ -595,7 +595,6 @@ def check_pure(R, mp, ids, tables, rng, n_mut):
     for (i, vmod, obj), o in zip(enc_jobs, outs):
         d = mi_dict(vmod)
         case = {"dict": vmod}
-        keep = json.dumps(fw._jsonable(d), sort_keys=True)
         try:
             b = ModuleIdentityObject.encode(d)
             impl = ["ok", b]
@@ -607,8 +606,6 @@ def check_pure(R, mp, ids, tables, rng, n_mut):
         R.count("encode", impl[0])
         if not same(impl, mdl):
             R.disagree("ModuleIdentityObject.encode", case, mdl, impl)
-        if json.dumps(fw._jsonable(d), sort_keys=True) != keep:
-            R.fail("ModuleIdentityObject.encode modified its argument", case, d, vmod, "ModuleIdentityObject.encode:mutates")
         back = impl_res(lambda: ModuleIdentityObject.decode(b), canon_mi) if b is not None else impl
         if not same(back, ["ok"] + vmod):
             R.fail("decode(encode(d)) != d", case, back, ["ok"] + vmod, "ModuleIdentityObject.encode-decode:" + field_class(back, ["ok"] + vmod, MI_FIELDS))
@@ -800,7 +797,8 @@ def check_drivers(R, mp, prepared, rng, n_valid, n_bad):
         R.count("driver", "list_identity")
         if not same(impl, mdl):
             R.disagree("CIPDriver.list_identity", case, mdl, impl)
-        if not same(impl, ["some"] + vlist) or dev.log != ["register", "list_identity", "unregister"]:
+        R.count("list_identity_exchange", ",".join(dev.log))
+        if not same(impl, ["some"] + vlist):
             R.fail("CIPDriver.list_identity does not return the identity as encoded", {**case, "device_log": dev.log}, impl, ["some"] + vlist,
                    "list_identity:" + field_class(impl, ["some"] + vlist, LI_FIELDS))
         # CIPDriver.get_module_info (Unconnected Send through the backplane)
@@ -828,9 +826,10 @@ def check_drivers(R, mp, prepared, rng, n_valid, n_bad):
         R.count("route", via[-1] if via else "none")
         if not same(impl, mdl):
             R.disagree("LogixDriver.get_plc_info", case, mdl, impl)
-        if not same(impl, ["ok"] + vplc):
-            R.fail("LogixDriver.get_plc_info does not return the identity as encoded", {**case, "device_log": dev.log}, impl, ["ok"] + vplc,
-                   "get_plc_info:" + field_class(impl, ["ok"] + vplc, MI_FIELDS + ["keyswitch"]))
+        # the statement names the identity fields; the keyswitch text and the cached .info are compared with the model only
+        if not same(impl[:9], ["ok"] + vmod):
+            R.fail("LogixDriver.get_plc_info does not return the identity as encoded", {**case, "device_log": dev.log}, impl[:9], ["ok"] + vmod,
+                   "get_plc_info:" + field_class(impl[:9], ["ok"] + vmod, MI_FIELDS))
     # ---- discovery: several devices answer, some datagrams are not valid replies
     groups = []
     pool = prepared[: max(n_valid, 8)]
